@@ -1,6 +1,7 @@
 #include "ops_string.h"
 #include "../runtime/value.h"
 #include "../runtime/util.h"
+#include <limits>
 #include "../runtime/logging.h"
 #include "../runtime/runtime.h"
 #include "../runtime/sqfop.h"
@@ -116,7 +117,8 @@ namespace
             {
                 size_t end;
                 for (end = newoff; format[end] >= '0' && format[end] <= '9'; ++end);
-                auto num = std::stoi(format.substr(newoff, end - newoff));
+                // more digits than an int holds is out of range for any argument list (std::stoi would throw)
+                auto num = end - newoff > 9 ? std::numeric_limits<int>::max() : std::stoi(format.substr(newoff, end - newoff));
                 newoff = end;
                 if (num >= static_cast<int>(r->size()))
                 {
